@@ -16,7 +16,10 @@
 package c16
 
 import (
+	"archive/zip"
+	"bytes"
 	"fmt"
+	"io"
 	"os"
 	"path/filepath"
 	"sort"
@@ -563,6 +566,83 @@ func witnessDoc(f finding, tk *fw.Tokens) *logical.Doc {
 	return d
 }
 
+// runDamagedOptionalPart: a conforming DOCX whose optional styles or numbering part
+// is cut off / replaced by garbage. A reader may refuse the file; if it reads it,
+// the body is still complete and in order (headings and list structure, which
+// those parts define, are not judged).
+func runDamagedOptionalPart(c *fw.Ctx, i int) {
+	id := fmt.Sprintf("dmgpart:%d", i)
+	if !c.Want(id) {
+		return
+	}
+	r := c.Rand("dmgpart", i)
+	tk := fw.NewTokens(c.Rand("dmgpart", i, "tokens"))
+	d := logical.Gen(r, tk, profile("docx", []string{"tables", "", "lists"}[i%3], false))
+	data := ooxml.WriteDocx(d, ooxml.DocxOptions{})
+	zr, err := zip.NewReader(bytes.NewReader(data), int64(len(data)))
+	if err != nil {
+		return
+	}
+	victims := []string{"word/styles.xml", "word/numbering.xml"}
+	victim := victims[i%2]
+	var members []ooxml.PartMember
+	hit := false
+	for _, f := range zr.File {
+		rc, err := f.Open()
+		if err != nil {
+			return
+		}
+		b, _ := io.ReadAll(rc)
+		rc.Close()
+		if f.Name == victim && len(b) > 60 {
+			hit = true
+			switch r.Intn(3) {
+			case 0:
+				b = b[:len(b)/2]
+			case 1:
+				b = []byte("this is not xml at all \x00\x01")
+			default:
+				b = append(b[:len(b)/3:len(b)/3], []byte("<w:oops></w:nope>")...)
+			}
+		}
+		members = append(members, ooxml.PartMember{Name: f.Name, Data: b})
+	}
+	if !hit {
+		return
+	}
+	path := filepath.Join(c.Work, fmt.Sprintf("c16-dmg-%d.docx", i))
+	if os.WriteFile(path, ooxml.PartZip(members), 0o644) != nil {
+		return
+	}
+	defer os.Remove(path)
+	c.Case(fmt.Sprintf("dmgpart|%d|%s|%s", i, victim, d.Describe()), true)
+	c.Seen("damaged_optional_part", victim)
+	detail := map[string]any{"damaged_part": victim, "document": clip(d.Describe())}
+	sk := logical.SkeletonOf(d.Units())
+	c.Guard("c16-damaged-part", id, detail, func() {
+		txt, _, err := tabula.Open(path).Text()
+		if err != nil {
+			c.Count("damaged_optional_part_refused", 1)
+			return
+		}
+		c.Count("damaged_optional_part_read", 1)
+		report := func(view, out string, md bool) {
+			for _, p := range c15.TraceTokens(out, sk, c15.TraceOpts{Markdown: md, LossOnly: true}) {
+				c.Fail("", "damaged-optional-part/"+view+"/"+p.Class, id, fmt.Sprintf("docx with %s damaged, %s: %s", victim, view, p.What), detail)
+				return
+			}
+		}
+		report("Text()", txt, false)
+		if md, _, err := tabula.Open(path).ToMarkdown(); err == nil {
+			report("ToMarkdown()", md, true)
+		}
+		if doc, _, err := tabula.Open(path).Document(); err == nil && doc != nil {
+			lin, _ := compareModel(d, d.Units(), doc)
+			report("Document()", lin, false)
+		}
+	})
+}
+
 // Run is the C16 check.
 func Run(c *fw.Ctx) {
 	c.Rule("case = (logical document, format, writer spelling, neutralised trigger set); non-trivial iff >= 1 table stands between two non-table blocks " +
@@ -592,6 +672,8 @@ func Run(c *fw.Ctx) {
 		w := wopts{pretty: wr.Intn(2) == 0, store: wr.Intn(4) == 0, colsRepeated: wr.Intn(2) == 0, bodyStyle: wr.Intn(30)}
 		runCase(c, id, d, format, clean, w)
 	})
+
+	c.Parallel(c.N(120, 2000), func(i int) { runDamagedOptionalPart(c, i) })
 
 	// one fixed witness per open finding, so that the KNOWN-FINDING line is
 	// printed on every run while the defect exists
